@@ -226,3 +226,76 @@ Proof.
   pose proof (read_mapping_spec (entries_of c) [] (entries_wf c W)) as R. rewrite !app_nil_r in R.
   rewrite R. apply assemble_entries.
 Qed.
+
+(* ---------- the one-liner stays on its line ---------- *)
+(* nothing in it is a control character, a line break (LF, CR, NEL, LS, PS) or a byte order mark: put after the language of
+   a code fence it cannot end the fence line *)
+Definition inline (t : list N) : Prop := Forall (fun x => needs_u_escape x = false) t.
+Lemma inline_app : forall a b, inline a -> inline b -> inline (a ++ b).
+Proof. intros. apply Forall_app. split; assumption. Qed.
+Lemma digit_inline : forall c, is_digit c = true -> needs_u_escape c = false.
+Proof. intros c H. unfold is_digit in H. unfold needs_u_escape. lia. Qed.
+Lemma inline_dec : forall n, inline (dec n).
+Proof. intros n. eapply Forall_impl; [|apply dec_digits]. exact digit_inline. Qed.
+Lemma inline_decz : forall z, inline (decz z).
+Proof. intros [|p|p]; unfold decz; try apply inline_dec. constructor; [reflexivity|apply inline_dec]. Qed.
+Lemma inline_chain : forall its st, Forall (fun it => inline (snd (fst it))) its -> inline (dchain st its).
+Proof.
+  induction its as [|[[v name] pl] r IH]; intros st H; [constructor|].
+  apply Forall_cons_iff in H. destruct H as [Hn Hr]. cbn [fst snd] in Hn. cbn [dchain].
+  destruct (0 <? v); [|apply IH; exact Hr].
+  apply inline_app; [destruct st; repeat constructor|]. apply inline_app; [|apply IH; exact Hr].
+  unfold item_text. apply inline_app; [apply inline_dec|]. apply inline_app; [exact Hn|].
+  destruct (pl && (1 <? v)); repeat constructor.
+Qed.
+Lemma inline_format : forall s ns, inline (format_duration s ns).
+Proof.
+  intros s ns. unfold format_duration. destruct ((s =? 0) && (ns =? 0)); [repeat constructor|].
+  apply inline_chain. unfold dur_items. repeat (apply Forall_cons; [cbn [fst snd]; repeat constructor|]). apply Forall_nil.
+Qed.
+Lemma plain_inline : forall t, forallb plain_char t = true -> inline t.
+Proof.
+  intros t H. apply Forall_forall. intros c Hc. rewrite forallb_forall in H. specialize (H c Hc).
+  unfold plain_char, is_alpha, is_digit_c in H. unfold needs_u_escape. lia.
+Qed.
+Lemma inline_scalar : forall t, inline (yaml_scalar t).
+Proof.
+  intros t. unfold yaml_scalar. destruct (is_plain t) eqn:P; [|apply quoted_clean].
+  apply plain_inline. apply (is_plain_chars t P).
+Qed.
+Lemma inline_join : forall l, Forall inline l -> inline (join_sep l).
+Proof.
+  induction l as [|x l IH]; intros H; [constructor|]. apply Forall_cons_iff in H. destruct H as [Hx Hl].
+  destruct l as [|y l']; [exact Hx|].
+  change (join_sep (x :: y :: l')) with (x ++ SEP ++ join_sep (y :: l')).
+  apply inline_app; [exact Hx|]. apply inline_app; [repeat constructor|]. apply IH. exact Hl.
+Qed.
+Lemma inline_env : forall e, inline (env_text e).
+Proof.
+  intros e. unfold env_text. apply inline_app; [repeat constructor|]. apply inline_app; [|repeat constructor].
+  apply inline_join. apply Forall_map. apply Forall_forall. intros [k v] _. unfold env_entry. cbn [fst snd].
+  apply inline_app; [apply inline_scalar|]. apply inline_app; [repeat constructor|apply quoted_clean].
+Qed.
+Lemma inline_value : forall v, inline (value_text v).
+Proof.
+  intros [n|b|s ns|z|s ns [p|]|e]; cbn [value_text].
+  - unfold stream_name. destruct (n =? 0); [repeat constructor|]. destruct (n =? 1); repeat constructor.
+  - destruct b; repeat constructor.
+  - apply inline_format.
+  - apply inline_decz.
+  - apply inline_app; [repeat constructor|]. apply inline_app; [apply inline_format|].
+    apply inline_app; [repeat constructor|]. apply inline_app; [apply inline_scalar|repeat constructor].
+  - apply inline_format.
+  - apply inline_env.
+Qed.
+Theorem one_liner_inline : forall c, inline (one_liner c).
+Proof.
+  intros [os kc to de sk sa wa env]. unfold one_liner. apply inline_app; [repeat constructor|]. apply inline_app; [|repeat constructor].
+  apply inline_join. apply Forall_map. unfold entries_of. cbn [y_os y_kc y_to y_de y_sk y_sa y_wa y_env].
+  repeat (apply Forall_app; split);
+    try (match goal with |- Forall _ (opt_entry _ _ ?o) => destruct o; [|constructor] end;
+         constructor; [|constructor]; unfold entry_text; cbn [fst snd];
+         apply inline_app; [repeat constructor|]; apply inline_app; [repeat constructor|apply inline_value]).
+  destruct env; [constructor|]. constructor; [|constructor]. unfold entry_text. cbn [fst snd].
+  apply inline_app; [repeat constructor|]. apply inline_app; [repeat constructor|apply inline_value].
+Qed.
